@@ -174,6 +174,27 @@ fn check_matrix(rows: usize, cols: usize, data: &[f32], s: f64, stats: &mut Stat
         let shape = if rows == cols { "square" } else { "rectangular" };
         ensure!(close_s(got, want, 1e-4, s), format!("combiner/{name}/{shape}"), "{name} of {rows}x{cols} matrix {data:?} = {got}, definition gives {want}");
     }
+    // exactness where no rounding can occur: all entries equal to one finite value v (sums of 2^k copies of v and
+    // their division by 2^k are exact, also among the subnormal numbers) - every combination is v itself
+    // (partial sums of up to 8 copies stay exact: three spare mantissa bits, or a subnormal below 2^20 units)
+    let spare_bits = |v: f32| {
+        let b = v.abs().to_bits();
+        if b < 0x0080_0000 { b < (1 << 20) } else { b & 7 == 0 }
+    };
+    if !data.is_empty() && data.iter().all(|x| x.to_bits() == data[0].to_bits()) && data[0].is_finite() && data[0].abs() < 1e37 && spare_bits(data[0]) && rows.is_power_of_two() && cols.is_power_of_two() && rows <= 8 && cols <= 8 {
+        let v = data[0];
+        for (comb, name) in COMBS {
+            if comb == StandardCombiner::Bma && rows != cols {
+                continue;
+            }
+            let got = comb.calculate(&m);
+            ensure!(got.to_bits() == v.to_bits() || (got == 0.0 && v == 0.0), format!("combiner/{name}/constant-matrix"), "{name} of a {rows}x{cols} matrix whose entries are all {v:e} = {got:e}");
+        }
+        stats.label("matrix:constant");
+        if v != 0.0 && v.abs() < f32::MIN_POSITIVE {
+            stats.label("matrix:constant-subnormal");
+        }
+    }
     // name parsing of the combiner
     for (comb, name) in COMBS {
         ensure!(StandardCombiner::try_from(name).ok() == Some(comb), "combiner/try_from", "StandardCombiner::try_from({name:?})");
@@ -414,6 +435,16 @@ fn strategy() -> BoxedStrategy<Case> {
             let scale_exp = if picks[62] % 8 == 1 { 0 } else { scale_exp };
             Case::Matrix { rows, cols, data, scale_exp }
         });
+    // constant matrices with 2^k rows and columns, values from the whole finite range incl. the subnormal numbers
+    let constant = (0u32..4, 0u32..4, prop_oneof![
+        3 => (1u32..16).prop_map(f32::from_bits),
+        2 => (1u32..(1 << 20)).prop_map(f32::from_bits),
+        1 => (1u32..(1 << 20)).prop_map(|b| -f32::from_bits(b)),
+        2 => (-1000.0f32..1000.0).prop_map(|v| f32::from_bits(v.to_bits() & !7)),
+        1 => Just(0.0f32),
+        1 => (0x0080_0000u32..0x7d00_0000).prop_map(|b| f32::from_bits(b & !7)),
+    ])
+        .prop_map(|(r, c, v)| Case::Matrix { rows: 1 << r, cols: 1 << c, data: vec![v; (1usize << r) << c], scale_exp: 0 });
     let int_matrix = (0usize..=9, 0usize..=9).prop_map(|(rows, cols)| Case::IntMatrix { rows, cols });
     let sets = (vec(value(), NT * NT), any::<bool>(), vec((prop_oneof![12 => vec(any::<u8>(), 0..=8), 1 => vec(any::<u8>(), 40..=90)], prop_oneof![12 => vec(any::<u8>(), 0..=8), 1 => vec(any::<u8>(), 40..=90)]), 1..=6), scale()).prop_map(|(mut table, symmetric, pairs, scale_exp)| {
         // (the selector is derived from the generated sets; a term whose scores are all -infinity gets them in both directions)
@@ -437,7 +468,7 @@ fn strategy() -> BoxedStrategy<Case> {
         }
         Case::Sets { table, pairs, scale_exp }
     });
-    prop_oneof![5 => matrix, 1 => int_matrix, 4 => sets].boxed()
+    prop_oneof![10 => matrix, 1 => constant, 2 => int_matrix, 8 => sets].boxed()
 }
 
 const NT_BIG: u32 = 4200;
@@ -523,7 +554,7 @@ impl Property for C05 {
         "C05"
     }
     fn rule(&self) -> String {
-        "Generated: (a) raw r x c matrices, r,c in 0..=8 plus 1x40 and 40x1, f32 entries (finite, occasionally +infinity; in one case of four -infinity instead, in half of those a whole row or column / every score of one term; one case in eight is normalised: no score above 1, exactly 1.0 in every row but only in every third column) drawn from few values per matrix (ties among maxima), one case in six scaled by 10^e, e in -36..=33 (compared after dividing by the scale), through StandardCombiner::{FunSimAvg,FunSimMax,Bma}::calculate; integer matrices for rows()/cols()/dim()/len() against index arithmetic; (b) on a flat 40-term ontology: sequences of 1-6 pairs of term sets (sizes 0..=8, occasionally 31-40 members) and a user-supplied Similarity that looks pairs up in a generated 40x40 table (asymmetric or symmetrised), through GroupSimilarity::calculate and HpoSet::similarity; (c) the same sequence through one CachedSimilarity per combiner (second visit, transposed pair), every set also compared with itself as the same object on both sides, and term-level (a,b),(b,a),(a,b); (d) fixed-size sweeps on a flat 4200-term ontology with an asymmetric similarity that is a function of the two ids: both sets long, or one long set against a short one in both orders, with sizes across 128 / 256 / 1024 / 2048 / 4096 (quick up to 4097 x 1, thorough up to 2050 x 1500). Oracle: the three definitions evaluated in f64 on M[i][j] = T[A_i][B_j] (ascending ids), tolerance 1e-4; 0 for an empty side; argument-order independence for symmetric tables (1e-6); cached results bit-identical to uncached. evaluations = combiner evaluations. Non-trivial = non-square non-empty matrix whose row-max mean differs from its column-max mean, or a set pair of unequal non-zero sizes; distinct by hash of the case.".into()
+        "Generated: (a) raw r x c matrices, r,c in 0..=8 plus 1x40 and 40x1, f32 entries (finite, occasionally +infinity; in one case of four -infinity instead, in half of those a whole row or column / every score of one term; one case in eight is normalised: no score above 1, exactly 1.0 in every row but only in every third column) drawn from few values per matrix (ties among maxima), one case in six scaled by 10^e, e in -36..=33 (compared after dividing by the scale), through StandardCombiner::{FunSimAvg,FunSimMax,Bma}::calculate; integer matrices for rows()/cols()/dim()/len() against index arithmetic; (b) on a flat 40-term ontology: sequences of 1-6 pairs of term sets (sizes 0..=8, occasionally 31-40 members) and a user-supplied Similarity that looks pairs up in a generated 40x40 table (asymmetric or symmetrised), through GroupSimilarity::calculate and HpoSet::similarity; (c) the same sequence through one CachedSimilarity per combiner (second visit, transposed pair), every set also compared with itself as the same object on both sides, and term-level (a,b),(b,a),(a,b); (d) fixed-size sweeps on a flat 4200-term ontology with an asymmetric similarity that is a function of the two ids: both sets long, or one long set against a short one in both orders, with sizes across 128 / 256 / 1024 / 2048 / 4096 (quick up to 4097 x 1, thorough up to 2050 x 1500). Constant matrices with 2^k rows and columns (values from the whole finite range incl. the subnormal numbers) must give exactly that value. Oracle: the three definitions evaluated in f64 on M[i][j] = T[A_i][B_j] (ascending ids), tolerance 1e-4; 0 for an empty side; argument-order independence for symmetric tables (1e-6); cached results bit-identical to uncached. evaluations = combiner evaluations. Non-trivial = non-square non-empty matrix whose row-max mean differs from its column-max mean, or a set pair of unequal non-zero sizes; distinct by hash of the case.".into()
     }
     fn assumptions(&self) -> Vec<String> {
         vec!["term similarities are finite, +infinity or -infinity, the two infinities never within one matrix (NaN is outside the domain: maxima are taken with '>', and inf - inf has no value)".into(), "f32 sums compared with f64 reference within 1e-4 relative".into()]
@@ -535,7 +566,7 @@ impl Property for C05 {
         }
     }
     fn required_labels(&self, _tier: Tier) -> Vec<&'static str> {
-        vec!["nontrivial", "matrix:rect-row!=col-means", "matrix:empty", "matrix:1x40", "int-matrix", "sets:unequal-sizes", "sets:empty", "sets:more-than-30-members", "sets:symmetric-table", "sets:asymmetric-table", "sets:cache-reused-over-several-pairs", "sets:same-object-asymmetric-table", "magnitude:huge", "magnitude:tiny", "sets:more-than-128-members", "sets:more-than-255-members", "sets:more-than-1024-members-unequal-sizes", "infinite-score", "negative-infinite-score", "row-or-column-of-negative-infinity", "square:every-row-has-a-perfect-match-some-column-has-none"]
+        vec!["nontrivial", "matrix:rect-row!=col-means", "matrix:empty", "matrix:1x40", "int-matrix", "sets:unequal-sizes", "sets:empty", "sets:more-than-30-members", "sets:symmetric-table", "sets:asymmetric-table", "sets:cache-reused-over-several-pairs", "sets:same-object-asymmetric-table", "magnitude:huge", "magnitude:tiny", "sets:more-than-128-members", "sets:more-than-255-members", "sets:more-than-1024-members-unequal-sizes", "infinite-score", "negative-infinite-score", "row-or-column-of-negative-infinity", "square:every-row-has-a-perfect-match-some-column-has-none", "matrix:constant", "matrix:constant-subnormal"]
     }
     fn run_generated(&self, _tier: Tier, seed: u64, n: u64, stats: &mut Stats) -> Option<(Value, Failure)> {
         run_typed(strategy(), seed, n, stats, check)
